@@ -105,7 +105,17 @@ type LVal struct {
 	Key K
 }
 
+// KeyWindow, when non-nil, makes GenKey draw integer keys from [Lo, Lo+W]:
+// loads with narrow, sliding windows give objects whose key ranges overlap in
+// chains (A overlaps B, B overlaps C, A does not overlap C).
+type KeyWindow struct{ Lo, W int64 }
+
+var CurWindow *KeyWindow
+
 func GenKey(r *Rng) K {
+	if CurWindow != nil && !r.Chance(1, 10) {
+		return K{Kind: "int", I: CurWindow.Lo + int64(r.Intn(int(CurWindow.W)+1))}
+	}
 	switch r.Intn(12) {
 	case 0:
 		return K{Kind: "null"}
@@ -184,6 +194,7 @@ type HistOpts struct {
 	Branches bool // allow branch / merge / revert
 	Vectors  bool // allow vector add/del and compaction with vectors
 	Vacuum   bool
+	Windows  bool // loads draw keys from narrow sliding windows (chains of overlapping objects)
 }
 
 // GenHistory draws a history; ids of values are unique across the history.
@@ -200,11 +211,19 @@ func GenHistory(r *Rng, cfg PoolCfg, o HistOpts) ([]HOp, map[string]LVal) {
 		case c < 34 || len(ops) == 0:
 			n := 1 + r.Intn(8)
 			var zs []string
+			if o.Windows {
+				// a sliding window: overlaps the previous load's window partly
+				CurWindow = &KeyWindow{Lo: int64(20*len(ops)%97) - int64(r.Intn(15)), W: int64(10 + r.Intn(25))}
+				if r.Bool() {
+					CurWindow.Lo = 100 - CurWindow.Lo
+				}
+			}
 			for i := 0; i < n; i++ {
 				v := GenLVal(r, cfg, nextID)
 				nextID++
 				zs = append(zs, v.Z)
 			}
+			CurWindow = nil
 			ops = append(ops, HOp{Kind: "load", Branch: b, Vals: zs})
 			ncommits[b]++
 		case c < 46:
@@ -889,17 +908,15 @@ func (lr *LakeRun) CheckBranch(name string) {
 	if strings.Join(SortedCopy(got), "\n") != strings.Join(SortedCopy(want), "\n") {
 		lr.fail(lr.Tag+":scan-contents", fmt.Sprintf("scan of %s returns %d values, specification says %d", name, len(got), len(want)), lr.replay(map[string]any{"got": got, "want": SortedCopy(want)}), fmt.Sprint(len(want)), fmt.Sprint(len(got)))
 	}
-	// order
-	for i := 1; i < len(got); i++ {
-		ka, oka := lr.keyOf(got[i-1])
-		kb, okb := lr.keyOf(got[i])
-		if !oka || !okb {
-			continue
-		}
-		c := CmpK(ka, kb)
-		if (!lr.Cfg.Desc && c > 0) || (lr.Cfg.Desc && c < 0) {
-			lr.fail(lr.Tag+":scan-order", fmt.Sprintf("scan of %s (%s) is out of pool-key order at position %d: %s then %s", name, lr.Cfg, i, got[i-1], got[i]), lr.replay(map[string]any{"got": got}), "pool-key order", got[i-1]+" before "+got[i])
-			break
+	lr.checkOrder(name, got, "scan-order")
+	if lr.Env != nil && lr.Env.Root != nil && !lr.Remote {
+		// the same scan with a single scan path (no merge of parallel legs to hide a
+		// mis-partitioned or mis-sorted object)
+		if got1, err := lr.Env.Query(fmt.Sprintf("from %s@%s", lr.PoolName, name), 1); err == nil {
+			lr.checkOrder(name, got1, "scan-order-par1")
+			if strings.Join(SortedCopy(got1), "\n") != strings.Join(SortedCopy(want), "\n") {
+				lr.fail(lr.Tag+":scan-contents-par1", fmt.Sprintf("single-path scan of %s returns %d values, specification says %d", name, len(got1), len(want)), lr.replay(map[string]any{"got": got1, "want": SortedCopy(want)}), fmt.Sprint(len(want)), fmt.Sprint(len(got1)))
+			}
 		}
 	}
 	// metadata accuracy
@@ -912,6 +929,8 @@ func (lr *LakeRun) CheckBranch(name string) {
 		if err != nil {
 			continue
 		}
+		// every object holds its values in pool order
+		lr.checkOrder(name+" object "+o.ID.String()[:8], vals, "object-internal-order")
 		if uint64(len(vals)) != o.Count {
 			lr.fail(lr.Tag+":object-count", fmt.Sprintf("object %s metadata count=%d but it holds %d values", o.ID, o.Count, len(vals)), lr.replay(nil), fmt.Sprint(len(vals)), fmt.Sprint(o.Count))
 		}
@@ -935,6 +954,21 @@ func (lr *LakeRun) CheckBranch(name string) {
 		}
 		if mn != nil && (o.Min != mn.Zson() || o.Max != mx.Zson()) {
 			lr.fail(lr.Tag+":object-range", fmt.Sprintf("object %s metadata range [%s,%s] but its values span [%s,%s]", o.ID, o.Min, o.Max, mn.Zson(), mx.Zson()), lr.replay(map[string]any{"values": vals}), mn.Zson()+".."+mx.Zson(), o.Min+".."+o.Max)
+		}
+	}
+}
+
+func (lr *LakeRun) checkOrder(what string, got []string, sig string) {
+	for i := 1; i < len(got); i++ {
+		ka, oka := lr.keyOf(got[i-1])
+		kb, okb := lr.keyOf(got[i])
+		if !oka || !okb {
+			continue
+		}
+		c := CmpK(ka, kb)
+		if (!lr.Cfg.Desc && c > 0) || (lr.Cfg.Desc && c < 0) {
+			lr.fail(lr.Tag+":"+sig, fmt.Sprintf("%s (%s) is out of pool-key order at position %d: %s then %s", what, lr.Cfg, i, got[i-1], got[i]), lr.replay(map[string]any{"got": got}), "pool-key order", got[i-1]+" before "+got[i])
+			return
 		}
 	}
 }
